@@ -1,8 +1,17 @@
 (* Props/C17.v — filter patterns are validated exactly by the documented glob
    syntax.  Only statements; every proof is [exact <lemma>]. *)
 From Coq Require Import List NArith.
-From AL Require Import Glob.Glob Glob.GlobSpec Glob.GlobFuel.
+From AL Require Import Glob.Glob Glob.GlobSpec Glob.GlobFuel Glob.GlobProofs.
 Import ListNotations.
+
+(* glob_exact: ValidateRefGlob / ValidatePathGlob (as repaired by
+   repo_patches/glob) report nothing iff the pattern is valid by the documented
+   syntax.  Excluded: patterns starting with U+FEFF (known finding
+   C17-leading-bom, witness C17_glob_exact_bom_refuted). *)
+Theorem C17_glob_exact : forall isRef pat, no_bom pat ->
+  (validate_mode isRef pat = Some [] <-> valid isRef pat).
+Proof. exact glob_exact. Qed.
+Print Assumptions C17_glob_exact.
 
 (* glob_fuel: validation terminates for every string — the fuel the wrappers
    supply (length + 1) is never exhausted, in either mode *)
